@@ -525,6 +525,12 @@ func checkC06(p *Prog, l *Ledger) {
 		return
 	}
 	ii := cs.ii
+	// ---- S0 the faults are detected: an invalid operation can only be reported if the evaluator tests for it on every
+	// path to the operation (rules shared with C03 — undefined name, redeclaration — and C04 — callee kind, arity)
+	l.As(map[string]string{"C03/S2-scope-wiring": "C06/S0-fault-detected/names", "C04/S3-call-protocol": "C06/S0-fault-detected/call"}, func() {
+		checkScopeWiring(cs, l)
+		checkCallProtocol(cs, l)
+	})
 	// ---- S1 single reporter
 	checkFlagWriters(p, l, "C06/S1-single-reporter")
 	// ---- S2 / S3
